@@ -1,6 +1,8 @@
 import RscelModel.Driver.Wire
 import RscelModel.Model.Conv
 import RscelModel.Model.WF
+import RscelModel.Model.Json
+import RscelModel.Driver.Hist
 import RscelModel.Driver.AstJson
 import RscelModel.Driver.C02Spec
 import RscelModel.Driver.SerdeWire
@@ -124,6 +126,27 @@ def handle (line : String) : String :=
           | _ => none
         | _ => none) with
       | some r => r
+      | none => "bad-request"
+    else if cmd == "ctx" then
+      -- ctx P:<n> (key val)* S:<n> (name hexsrc)* U:<n> (name kind)* <name>: a context built with
+      -- add_program_str (a source that does not compile is not added), then exec(name)
+      match (do
+        let (env, rest) ← Wire.parseSrcEnv (fun src => match parseProgram lazySrc src with
+          | .error _ => none
+          | .ok a => some (compileProgram (stdBuiltins 0) a)) args
+        let name ← match rest with | [h] => Wire.strOfHex h | _ => none
+        match env.getProg name with
+        | none => pure "e:binding L:0"
+        | some code => pure (Wire.showOut (execProg (stdBuiltins 0) env code))) with
+      | some r => r
+      | none => "bad-request"
+    else if cmd == "hist" then
+      match Wire.handleHist args with
+      | some r => r
+      | none => "bad-request"
+    else if cmd == "json" then
+      match Wire.parseJson args with
+      | some (j, _) => Wire.showVal j.toVal
       | none => "bad-request"
     else if cmd == "wf" then
       match Wire.parseVal args with
